@@ -51,6 +51,13 @@ def type_shape_programs():
     out.append("enum W { Val(u8) }\npub fn main(x: u8) -> W { W::Val(x) }")
     out.append("enum W { Val(u8) }\npub fn main(w: W) -> u8 { match w { W::Val(v) => v } }")
     out.append("enum U { Only }\npub fn main(u: U, x: u8) -> [U; 2] { [u, U::Only] }")
+    # arrays of zero-sized elements: literal and dynamic indices, reads and writes
+    out.append("pub fn main(x: u8) -> u8 { let a = [(); 3]; let u = a[1usize]; x }")
+    out.append("pub fn main(x: u8, i: usize) -> u8 { let a = [(); 3]; let u = a[i]; x }")
+    out.append("enum M { Present }\npub fn main(x: u8) -> (M, u8) { let a = [M::Present, M::Present]; (a[0usize], x) }")
+    out.append("pub fn main(a: [[u8; 0]; 2], x: u8) -> ([u8; 0], u8) { (a[1usize], x) }")
+    out.append("pub fn main(a: [(); 2], x: u8) -> u8 { let mut b = a; b[0usize] = (); x }")
+    out.append("struct E { }\npub fn main(a: [E; 2], x: u8) -> (E, u8) { (a[1usize], x) }")
     # a single array parameter is one party per element, whatever form its size takes (99088d3)
     out.append("pub fn main(arr: [u8; const { 2usize + 1usize }]) -> u8 { arr[0usize] }")
     out.append("pub fn main(arr: [(u8, bool); const { 4usize - 2usize }]) -> bool { arr[1usize].1 }")
